@@ -112,14 +112,15 @@ Suffixed(keys, s) == MapOver(keys, LAMBDA k : k \o s)
 Renamed(keys, names) == {<<keys[i], names[i]>> : i \in 1..Len(keys)}
 \* NAMED DEVIATIONS  BothEnds: "_x_" starts AND ends with an underscore - prefix or suffix;
 \*                   SingleKeyAffix: ONE key and ONE string with an underscore at an end - affix, or the new name
+Affixed(keys, s) == (IF StartsWith(s, "_") THEN {Suffixed(keys, s)} ELSE {}) \cup (IF EndsWith(s, "_") THEN {Prefixed(keys, s)} ELSE {})
 BaseMaps(keys, form) ==
     CASE form.sp = "none"  -> {{}}
-      [] form.sp = "affix" -> (IF StartsWith(form.s, "_") THEN {Suffixed(keys, form.s)} ELSE {})
-                              \cup (IF EndsWith(form.s, "_") THEN {Prefixed(keys, form.s)} ELSE {})
-                              \cup (IF Len(keys) = 1 THEN {Renamed(keys, <<form.s>>)} ELSE {})
+      [] form.sp = "affix" -> Affixed(keys, form.s) \cup (IF Len(keys) = 1 THEN {Renamed(keys, <<form.s>>)} ELSE {})
       [] form.sp = "fn"    -> {MapOver(keys, LAMBDA k : Fn(form.s, k))}
       [] form.sp = "dict"  -> {Override({}, form.items)}
-      [] OTHER             -> {Renamed(keys, form.names)}              \* "names" (one list) and "pos" (positional strings)
+      \* "names" (one list of new names) and "pos" (the new names one by one); ONE new name for ONE key is the very call
+      \* of the affix form
+      [] OTHER             -> {Renamed(keys, form.names)} \cup (IF Len(keys) = 1 THEN Affixed(keys, form.names[1]) ELSE {})
 RelabelInDomain(keys, form) ==
     /\ form.sp \in {"names", "pos"} => Len(form.names) = Len(keys)
     /\ form.sp = "affix" => (Len(keys) = 1 \/ StartsWith(form.s, "_") \/ EndsWith(form.s, "_"))
